@@ -99,6 +99,9 @@ func (e *aggregate) SubMergers(subs []Expr) []SubMerge {
 	for i, sub := range subs {
 		if e.String() == sub.String() {
 			result[i] = e.subMerge
+			// only merge from the first matching sub, otherwise a source that
+			// carries the same expression under two names gets counted twice
+			break
 		}
 	}
 	return result
